@@ -17,7 +17,8 @@ META = {
         'struct.error into InvalidValue. R3 (who-may-call): no function of the package calls a local-time API '
         '(time.mktime/localtime/timezone/altzone, naive datetime.fromtimestamp/now/today, .timetuple() fed to mktime); '
         'the timestamp composer goes through calendar.timegm/utctimetuple. R4: flags are decoded by intersecting with each '
-        'member and encoded by OR-ing, with mirrored shifts. R5: the "forever" sentinel has the width of the field on both sides.'),
+        'member and encoded by OR-ing, with mirrored shifts. R5: the "forever" sentinel has the width of the field on both sides.'
+        ' R1 evaluates the per-byte-order test for each of the four ByteOrder members. R3 requires calendar.timegm(value.utctimetuple()). R6: SSH and fixed-length mpint composer and parser are evaluated statement by statement over boundary bit lengths and both signs and compared with RFC 4251 / big-endian fixed width, including refusal instead of truncation.'),
     'assumptions': ['struct packs/unpacks standard sizes exactly for the prefixes = < > !'],
     'trusted_base': ['python ast', 'struct.calcsize for the table check'],
     'exhaustive': True,
